@@ -579,4 +579,122 @@ theorem derivedSpec_wf {Pi L : Nat} {plains : List Nat} {S : List Ev} (h : WFNes
         simpa [plainEv, Elem.ofTok] using this
       rw [h.anti e heS e' heS' hni hport hpre']
 
+theorem runWith_shift (add : TV → Nat → Elem → Res) : ∀ (es : List Ev) (tv : TV) (out : List Emit),
+    runWith add es tv out =
+      ⟨(runWith add es tv []).tv, out ++ (runWith add es tv []).out, (runWith add es tv []).err⟩ := by
+  intro es
+  induction es with
+  | nil => intro tv out; simp [runWith]
+  | cons ev es ih =>
+    obtain ⟨p, t⟩ := ev
+    intro tv out
+    simp only [runWith, List.nil_append]
+    cases h : (add tv p (Elem.ofTok p t)).err with
+    | some x => rfl
+    | none =>
+      simp only
+      rw [ih _ (out ++ (add tv p (Elem.ofTok p t)).out), ih _ (add tv p (Elem.ofTok p t)).out]
+      simp [List.append_assoc]
+
+theorem lookup_map_replace (i : Nat) (tv : TV) : ∀ (r : List (Nat × TV)), r.any (fun x => decide (x.1 = i)) = true →
+    (r.map (fun x => if x.1 = i then (i, tv) else x)).lookup i = some tv := by
+  intro r
+  induction r with
+  | nil => intro h; simp at h
+  | cons x r ih =>
+    obtain ⟨k, v⟩ := x
+    intro h
+    by_cases hk : k = i
+    · subst hk; simp [List.lookup]
+    · have hb : (i == k) = false := by simpa using (fun e => hk e.symm)
+      simp only [List.any_cons, hk, decide_false, Bool.false_or] at h
+      simp only [List.map_cons, hk, if_false, List.lookup, hb]
+      exact ih h
+
+theorem lookup_append_new (i : Nat) (tv : TV) : ∀ (r : List (Nat × TV)), r.any (fun x => decide (x.1 = i)) = false →
+    (r ++ [(i, tv)]).lookup i = some tv := by
+  intro r
+  induction r with
+  | nil => intro _; simp [List.lookup]
+  | cons x r ih =>
+    obtain ⟨k, v⟩ := x
+    intro h
+    simp only [List.any_cons, Bool.or_eq_false_iff, decide_eq_false_iff_not] at h
+    have hb : (i == k) = false := by simpa using (fun e => h.1 e.symm)
+    simp only [List.cons_append, List.lookup, hb]
+    exact ih h.2
+
+theorem lookup_setI (inn : List (Nat × TV)) (i : Nat) (tv : TV) : (setI inn i tv).lookup i = some tv := by
+  unfold setI
+  cases h : inn.any (fun x => decide (x.1 = i)) with
+  | true => simp only [if_true]; exact lookup_map_replace i tv inn h
+  | false => simp only [Bool.false_eq_true, if_false]; exact lookup_append_new i tv inn h
+
+/-- the element stream of the outer combinator is an interleaving of the inner combinator's emissions (in
+    emission order) and the tokens of the plain ports -/
+theorem derived_split (Pi : Nat) (plains : List Nat) : ∀ (es : List Ev) (inn : List (Nat × TV)),
+    (runWith (cartAdd 1 (List.range Pi)) (es.filter (isInner Pi)) ((inn.lookup 0).getD []) []).err = none →
+    (derived (nestItems Pi plains) es inn).Perm
+      ((runWith (cartAdd 1 (List.range Pi)) (es.filter (isInner Pi)) ((inn.lookup 0).getD []) []).out.map mk0
+        ++ (es.filter (fun e => !isInner Pi e)).map (plainEv (nestItems Pi plains))) := by
+  intro es
+  induction es with
+  | nil => intro inn _; simp [derived, runWith]
+  | cons ev es ih =>
+    obtain ⟨p, t⟩ := ev
+    intro inn herr
+    simp only [derived, findSub_nest]
+    by_cases hp : p < Pi
+    · have hf1 : ((p, t) :: es).filter (isInner Pi) = (p, t) :: es.filter (isInner Pi) := by
+        simp [List.filter_cons, isInner, hp]
+      have hf2 : ((p, t) :: es).filter (fun e => !isInner Pi e) = es.filter (fun e => !isInner Pi e) := by
+        simp [List.filter_cons, isInner, hp]
+      rw [hf1] at herr ⊢
+      rw [hf2]
+      simp only [hp, if_true, innerAdd]
+      simp only [runWith] at herr ⊢
+      generalize hr : cartAdd 1 (List.range Pi) ((inn.lookup 0).getD []) p (Elem.ofTok p t) = r at herr ⊢
+      cases hre : r.err with
+      | some x => rw [hre] at herr; simp at herr
+      | none =>
+        rw [hre] at herr
+        simp only at herr ⊢
+        rw [runWith_shift] at herr
+        simp only at herr
+        have hl : ((setI inn 0 r.tv).lookup 0).getD [] = r.tv := by rw [lookup_setI]; rfl
+        have := ih (setI inn 0 r.tv) (by rw [hl]; exact herr)
+        rw [hl] at this
+        rw [runWith_shift]
+        simp only [List.nil_append, List.map_append, List.append_assoc]
+        exact (List.perm_append_left_iff _).mpr this
+    · have hf1 : ((p, t) :: es).filter (isInner Pi) = es.filter (isInner Pi) := by
+        simp [List.filter_cons, isInner, hp]
+      have hf2 : ((p, t) :: es).filter (fun e => !isInner Pi e) = (p, t) :: es.filter (fun e => !isInner Pi e) := by
+        simp [List.filter_cons, isInner, hp]
+      rw [hf1] at herr ⊢
+      rw [hf2]
+      simp only [hp, if_false, List.map_cons]
+      refine (List.Perm.cons _ (ih inn herr)).trans ?_
+      exact List.perm_middle.symm
+
+/-- **nested `dot[cart₁[p0 … p(Pi-1)], plain ports]`, any arrival order**: the schemas `runNested` emits are — each
+    up to the order of its entries — exactly one combination per complete tag of the derived specification, which
+    is a function of the input stream only -/
+theorem nested_cart_any_order {Pi L : Nat} {plains : List Nat} (S es : List Ev) (h : WFNest Pi L plains S)
+    (hp : es.Perm S) :
+    ∃ N, EmRel (runNested (nestItems Pi plains) es).out N ∧
+      N.Perm (specE (plains.length + 1) (derivedSpec Pi plains S)) := by
+  have hin : (es.filter (isInner Pi)).Perm (S.filter (isInner Pi)) := hp.filter _
+  obtain ⟨herr, hout⟩ := runCart_any_order _ _ h.inner hin
+  unfold runCart at herr hout
+  have hsplit := derived_split Pi plains es [] (by simpa using herr)
+  simp only [List.lookup, Option.getD_none] at hsplit
+  have hD : (derived (nestItems Pi plains) es []).Perm (derivedSpec Pi plains S) := by
+    refine hsplit.trans ?_
+    unfold derivedSpec
+    exact (hout.map mk0).append ((hp.filter _).map _)
+  have hlen : (nestItems Pi plains).length = plains.length + 1 := by simp [nestItems]
+  rw [runNested_out, hlen]
+  exact (dotElems_any_order _ _ (derivedSpec_wf h) (derivedSpec_ok h) hD).2
+
 end SFV.Comb
